@@ -22,7 +22,7 @@ func init() {
 	Runners["C17"] = queueRunner(RunC17)
 	harness.Specs["C05"] = &harness.PropSpec{
 		ID: "C05", Test: "TestC05", Kind: "queue", Level: "exploration", FuzzTargets: []string{"FuzzC05"}, FuzzSeconds: 180,
-		Quick: 16000, Thorough: 1000000,
+		Quick: 16000, Thorough: 100000,
 		Rule: "generated queue programs (Write chunks / Next / Flush, reader sections Begin..Next/Read(partial)..Done, ACK, queue and file reopen, drain probes " +
 			"by a second queue object) on page sizes 1024/4096 and write buffers 0/1 page/8 pages/64 KiB, executed against a slice-of-events model; event sizes " +
 			"are boundary biased (payload-4+-d, k*payload+-d, 1..3 bytes, > write buffer, multi page); Next must return the next event of the model with equal " +
@@ -36,7 +36,7 @@ func init() {
 	}
 	harness.Specs["C17"] = &harness.PropSpec{
 		ID: "C17", Test: "TestC17", Kind: "queue", Level: "exploration",
-		Quick: 8000, Thorough: 300000,
+		Quick: 8000, Thorough: 50000,
 		Rule: "generated queue programs as for C05 with counter probes at generated points (also inside reader sections and right after queue/file reopen): " +
 			"ground truth D = number of events a second, fresh queue object can actually drain; Pending == Active == D, D within [explicitly flushed - ACKed, " +
 			"completed - ACKed], Flushed callback total == ACKed + D, ACKed callback total == ACKed, Reader.Available == ACKed + D - consumed (probed when not " +
